@@ -100,9 +100,14 @@ def ast_case(draw):
         where = draw(st.sampled_from(["ctx", "ctx", "const", "both"]))
         if where in ("const", "both"):
             consts[n] = draw(vals)
-        if where in ("ctx", "both"):
+        if where == "ctx":
             for c in contexts:
                 c[n] = draw(vals)
+        elif where == "both":
+            # present in some contexts only: elsewhere the constant is the fallback
+            for c in contexts:
+                if draw(st.booleans()):
+                    c[n] = draw(vals)
     env = {"contexts": contexts, "consts": consts}
     ast = draw(expr_ast(draw(st.integers(1, 4)), idents, env))
     toks = X.tokens_of(ast)
@@ -110,7 +115,27 @@ def ast_case(draw):
     text = X.join_tokens(toks, gaps)
     # history: indices into contexts, or -1 = evaluation with an identifier left unbound (expected to fail)
     hist = draw(st.lists(st.integers(-1, nctx - 1), min_size=1, max_size=5))
-    return {"ast": ast, "text": text, "contexts": contexts, "consts": consts, "history": hist, "repaired": env.get("repaired", 0)}
+    # constants may be redefined between two evaluations of the same object (only to values keeping the case in domain)
+    updates = []
+    cur = dict(consts)
+    for _ in hist:
+        upd = {}
+        if consts and draw(st.integers(0, 3)) == 0:
+            n = draw(st.sampled_from(sorted(consts)))
+            v = draw(vals)
+            trial = dict(cur)
+            trial[n] = v
+            ok = True
+            for c in contexts:
+                try:
+                    X.evaluate(ast, c, trial)
+                except X.OutOfDomain:
+                    ok = False
+            if ok:
+                upd[n] = v
+                cur = trial
+        updates.append(upd)
+    return {"ast": ast, "text": text, "contexts": contexts, "consts": consts, "history": hist, "const_updates": updates, "repaired": env.get("repaired", 0)}
 
 
 @st.composite
@@ -205,7 +230,13 @@ def _run_ast(case, ctx, m):
     idents = sorted(feats["ids"])
     prev_ctx = None
     differing = False
+    consts = dict(consts)
     for step, ci in enumerate(case["history"]):
+        upd = (case.get("const_updates") or [{}] * len(case["history"]))[step]
+        if upd:
+            consts.update(upd)
+            cs.consts.update(upd)
+            ctx.count("history:constant-redefined-between-evaluations")
         if ci < 0:
             if not idents:
                 continue
@@ -215,7 +246,7 @@ def _run_ast(case, ctx, m):
             cs2 = m.cstruct()
             cs2.consts.update({k: v for k, v in consts.items() if k != drop})
             # the shared object is bound to cs; use a context-only evaluation when the name lives in consts
-            if drop in consts:
+            if drop in consts or drop not in case["contexts"][0]:
                 continue
             got = lib(shared.evaluate, c)
             if not isinstance(got, Err):
